@@ -116,24 +116,24 @@ def run(ctx):
                 reach.add(c)
                 work.append(c)
     allow = {
-        (HLL + "::count::{closure#0}", "Assert:BoundsCheck"): (1, "POW2MINX[u8]: R03-pow2-index"),
+        (HLL + "::count", "Assert:BoundsCheck"): (1, "POW2MINX[u8]: R03-pow2-index"),
         (HLL + "::estimate_bias", "Assert:Overflow:Sub"): (4, "b - OFFSET (OFFSET == lo <= b), len - 1 (len >= K >= 1), idx - 1 under idx > 0"),
         (HLL + "::estimate_bias", "Assert:Overflow:Add"): (1, "idx + 1 under idx < len - 1"),
-        (HLL + "::estimate_bias", "Assert:BoundsCheck"): (4, "table rows by b - lo < rows (R03-table-shape); neighbours within [0, len) by the search invariants"),
+        (HLL + "::estimate_bias", "Assert:BoundsCheck"): (5, "table rows by b - lo < rows (R03-table-shape); neighbours within [0, len) by the search invariants; bias_data[i], i < len(RAW[r]) == len(BIAS[r]) (R03-table-shape)"),
         (HLL + "::estimate_bias", "assert"): (1, "assert!(len >= K): every row has >= K entries (R03-table-shape)"),
         (HLL + "::estimate_bias", "panic"): (1, "`neighborhood search failed`: both cursors None needs len < K, excluded by R03-table-shape"),
-        (HLL + "::estimate_bias::{closure#0}", "Assert:BoundsCheck"): (1, "bias_data[i], i < len(RAW[r]) == len(BIAS[r]) (R03-table-shape)"),
         (HLL + "::threshold", "Assert:Overflow:Sub"): (1, "b - OFFSET, OFFSET == lo <= b"),
         (HLL + "::threshold", "Assert:BoundsCheck"): (1, "THRESHOLD[b - lo], rows == hi - lo + 1"),
         (HLL + "::neighbor_search_startpoints", "Assert:Overflow:Sub"): (2, "i - 1 on the branches where i != 0"),
-        (HLL + "::neighbor_search_startpoints::{closure#0}", "unwrap"): (1, "partial_cmp on finite table entries and finite e (POW2MINX > 0 => z finite)"),
+        (HLL + "::neighbor_search_startpoints", "unwrap"): (1, "partial_cmp on finite table entries and finite e (POW2MINX > 0 => z finite)"),
     }
     found = {}
     for k in sorted(reach):
         f = prog.fn(k)
         ctx.analysed_fns.add(k)
         for (bi, kind, detail, span) in panic_sites(f):
-            found.setdefault((k, kind), []).append(span)
+            # closures are counted with the function they are written in (their numbering changes when one is added or removed)
+            found.setdefault((k.split("::{closure")[0], kind), []).append(span)
     for key, spans in sorted(found.items()):
         if key in allow and len(spans) <= allow[key][0]:
             ctx.ok("R03-panic-census", "%s:%s" % key, "%d site(s): %s" % (len(spans), allow[key][1]))
